@@ -1,1 +1,373 @@
-(* Proofs/EntryFacts.v -- lemmas; see DESIGN.md section 7 *)
+(* Proofs/EntryFacts.v -- properties C10 and C11: what set / option / ct_add_test /
+   ct_add_section / add_test entries contain, stated against the views of Spec/EntrySpec.v. *)
+From Coq Require Import String List NArith Bool Arith Lia.
+From CMinx Require Import Base.Str Model.Lexer Model.Parser Model.Writer Model.DocTypes
+     Model.Aggregator Spec.EntrySpec.
+Import ListNotations.
+
+(* ---- spec ---- *)
+
+Definition starts_dq (v : str) : bool :=
+  match v with a :: _ => (a =? 34)%N | [] => false end.
+Definition ends_dq (v : str) : bool :=
+  match last_opt v with Some z => (z =? 34)%N | None => false end.
+
+(* the text of a single argument as the lexer can produce it: non-empty; it starts with a
+   double quote iff it ends with one; a quoted text has both quotes (length at least 2) *)
+Definition arg_text_ok (v : str) : bool :=
+  match v with [] => false | _ :: _ => true end
+  && Bool.eqb (starts_dq v) (ends_dq v)
+  && (negb (starts_dq v) || (2 <=? length v)).
+
+(* the model's representation of the optional third argument of option() *)
+Definition option_value (args : list str) : option str := nth_error args 2.
+
+(* position of the first NAME keyword *)
+Fixpoint name_pos (ps : list str) : nat :=
+  match ps with
+  | [] => 0
+  | p :: r => if str_eqb p NAME then 0 else S (name_pos r)
+  end.
+
+(* ---- helpers ---- *)
+
+Lemma str_eqb_sym : forall a b, str_eqb a b = str_eqb b a.
+Proof.
+  induction a as [|x a IH]; intros [|y b]; cbn [str_eqb]; try reflexivity.
+  rewrite IH, N.eqb_sym. reflexivity.
+Qed.
+
+Lemma last_opt_app1 : forall (A : Type) (l : list A) (x : A), last_opt (l ++ [x]) = Some x.
+Proof.
+  intros A l x. induction l as [|a l IH]; [reflexivity|].
+  cbn [app last_opt]. destruct (l ++ [x]) eqn:E.
+  - destruct l; discriminate E.
+  - exact IH.
+Qed.
+
+Lemma drop_last_app1 : forall (A : Type) (l : list A) (x : A), drop_last (l ++ [x]) = l.
+Proof.
+  intros A l x. induction l as [|a l IH]; [reflexivity|].
+  cbn [app drop_last]. destruct (l ++ [x]) eqn:E.
+  - destruct l; discriminate E.
+  - rewrite IH. reflexivity.
+Qed.
+
+Lemma last_opt_none : forall (A : Type) (l : list A), last_opt l = None -> l = [].
+Proof.
+  intros A l. induction l as [|a l IH]; intros H; [reflexivity|].
+  destruct l as [|b l']; [discriminate H|].
+  change (last_opt (a :: b :: l')) with (last_opt (b :: l')) in H.
+  discriminate (IH H).
+Qed.
+
+(* ---- N1: unquote ---- *)
+
+Theorem unquote_quoted : forall body, unquote (dq :: body ++ [dq]) = Some body.
+Proof.
+  intros body. unfold unquote. change (dq =? 34)%N with true. cbn iota.
+  rewrite last_opt_app1. change (dq =? 34)%N with true. cbn iota.
+  rewrite drop_last_app1. reflexivity.
+Qed.
+
+Theorem unquote_spec : forall v, arg_text_ok v = true -> unquote v = Some (value_as_written v).
+Proof.
+  intros [|a r] H; [discriminate H|].
+  unfold arg_text_ok in H. cbn [starts_dq] in H.
+  apply andb_prop in H. destruct H as [H Hlen]. apply andb_prop in H. destruct H as [_ Heq].
+  apply Bool.eqb_prop in Heq.
+  unfold unquote, value_as_written.
+  destruct (a =? 34)%N eqn:Ea.
+  - cbn [negb orb] in Hlen. destruct r as [|b r']; [cbn in Hlen; discriminate Hlen|].
+    unfold ends_dq in Heq. change (last_opt (a :: b :: r')) with (last_opt (b :: r')) in Heq.
+    destruct (last_opt (b :: r')) as [z|] eqn:El; [|discriminate Heq].
+    rewrite <- Heq. reflexivity.
+  - unfold ends_dq in Heq.
+    destruct (last_opt (a :: r)) as [z|] eqn:El.
+    + rewrite <- Heq. reflexivity.
+    + apply last_opt_none in El. discriminate El.
+Qed.
+
+Example unquote_spec_nonvacuous :
+  arg_text_ok (s"""a b\""") = true /\ arg_text_ok (s"abc") = true /\ arg_text_ok (s"""""") = true
+  /\ unquote (s"""a b\""") = Some (s"a b\") /\ unquote (s"""""") = Some [].
+Proof. vm_compute. repeat split. Qed.
+
+(* without the hypothesis the two differ: an opening quote only *)
+Example unquote_needs_ok :
+  unquote (s"""ab") = Some (s"ab") /\ value_as_written (s"""ab") = s"""ab"
+  /\ unquote [dq] = None.
+Proof. vm_compute. repeat split. Qed.
+
+(* ---- N2: set ---- *)
+
+Theorem process_set_spec : forall c doc docd st,
+  forallb arg_text_ok (singles c) = true ->
+  process_set c doc docd st =
+  match set_view (singles c) with
+  | None => Ok st
+  | Some (n, ty, v) => Ok (append (EVariable n doc ty v) docd st)
+  end.
+Proof.
+  intros c doc docd st H. unfold process_set, set_view.
+  destruct (singles c) as [|name vals]; [reflexivity|].
+  destruct vals as [|v vals]; [reflexivity|].
+  destruct vals as [|w vals]; [|reflexivity].
+  cbn [forallb] in H. apply andb_prop in H. destruct H as [_ H].
+  apply andb_prop in H. destruct H as [Hv _].
+  rewrite (unquote_spec v Hv). reflexivity.
+Qed.
+
+(* the three shapes, spelled out *)
+Corollary set_view_shapes : forall n v w vals,
+  set_view [n] = Some (n, VUnset, None)
+  /\ set_view [n; dq :: v ++ [dq]] = Some (n, VString, Some v)
+  /\ set_view (n :: v :: w :: vals) = Some (n, VList, Some (join (s" ") (v :: w :: vals))).
+Proof.
+  intros n v w vals. repeat split.
+  unfold set_view, value_as_written. change (dq =? 34)%N with true. cbn iota.
+  rewrite last_opt_app1. change (dq =? 34)%N with true. cbn iota.
+  rewrite drop_last_app1. reflexivity.
+Qed.
+
+Example process_set_nonvacuous :
+  let c := {| c_name := s"set"; c_args := [ASingle TIdent (s"X"); ASingle TQuoted (s"""a;b c""")] |} in
+  forallb arg_text_ok (singles c) = true
+  /\ set_view (singles c) = Some (s"X", VString, Some (s"a;b c")).
+Proof. vm_compute. split; reflexivity. Qed.
+
+Theorem render_variable_fields : forall n doc ty v,
+  render_entry (EVariable n doc ty v) =
+  Dir (s"data") [n] []
+      [Para doc;
+       Field (s"Default value") (match v with Some x => x | None => s"None" end);
+       Field (s"type") (match ty with VString => s"str" | VList => s"list" | VUnset => s"UNSET" end)].
+Proof. intros n doc ty v. destruct ty; reflexivity. Qed.
+
+(* ---- N3: option ---- *)
+
+Theorem process_option_spec : forall c doc docd st,
+  process_option c doc docd st =
+  match option_view (singles c) with
+  | None => st
+  | Some (n, h, _) => append (EOption n doc (option_value (singles c)) h) docd st
+  end.
+Proof.
+  intros c doc docd st. unfold process_option, option_view, option_value.
+  destruct (singles c) as [|a [|b [|v [|w r]]]]; reflexivity.
+Qed.
+
+Theorem render_option_default : forall args n h v doc,
+  option_view args = Some (n, h, v) ->
+  render_entry (EOption n doc (option_value args) h) =
+  Dir (s"data") [n] []
+      [Dir (s"note") [] [] [Para option_note];
+       Para doc;
+       Field (s"Help text") h;
+       Field (s"Default value") v;
+       Field (s"type") (s"bool")].
+Proof.
+  intros args n h v doc H. unfold option_view in H.
+  destruct args as [|a [|b [|x [|w r]]]]; try discriminate H;
+    injection H as <- <- <-; reflexivity.
+Qed.
+
+Example option_view_off : option_view [s"BUILD_X"; s"""help"""] = Some (s"BUILD_X", s"""help""", s"OFF").
+Proof. reflexivity. Qed.
+
+(* ---- N4: the NAME scan ---- *)
+
+Lemma scan_name_none : forall ps acc, count_str NAME ps = 0 -> scan_name ps acc = Some acc.
+Proof.
+  induction ps as [|p r IH]; intros acc H; [reflexivity|].
+  cbn [count_str] in H. cbn [scan_name]. change kw_name with NAME.
+  rewrite str_eqb_sym. destruct (str_eqb NAME p); [discriminate H|].
+  apply IH. exact H.
+Qed.
+
+Theorem scan_name_spec : forall ps acc, one_name ps = true -> scan_name ps acc = name_after ps.
+Proof.
+  unfold one_name. induction ps as [|p r IH]; intros acc H; [discriminate H|].
+  cbn [count_str] in H. cbn [scan_name name_after]. change kw_name with NAME.
+  rewrite (str_eqb_sym NAME p) in H. destruct (str_eqb p NAME).
+  - destruct r as [|n r']; [reflexivity|].
+    apply scan_name_none. apply Nat.eqb_eq in H. cbn [Nat.add] in H. lia.
+  - apply IH. exact H.
+Qed.
+
+Theorem has_expectfail_spec : forall ps, has_expectfail ps = mem_str EXPECTFAIL ps.
+Proof.
+  unfold has_expectfail. induction ps as [|p r IH]; [reflexivity|].
+  cbn [existsb mem_str]. rewrite IH. change kw_expectfail with EXPECTFAIL.
+  rewrite str_eqb_sym. reflexivity.
+Qed.
+
+(* None iff NAME is the last argument *)
+Lemma name_after_none_iff : forall ps, one_name ps = true ->
+  (name_after ps = None <-> last_opt ps = Some NAME).
+Proof.
+  unfold one_name. induction ps as [|p r IH]; intros H; [discriminate H|].
+  cbn [count_str] in H. cbn [name_after]. rewrite (str_eqb_sym NAME p) in H.
+  destruct (str_eqb p NAME) eqn:E.
+  - destruct r as [|n r'].
+    + cbn [last_opt]. split; intros _; [|reflexivity]. f_equal.
+      clear H. revert E. generalize NAME. induction p as [|x p IHp]; intros [|y q] E;
+        try discriminate E; [reflexivity|].
+      cbn [str_eqb] in E. apply andb_prop in E. destruct E as [E1 E2].
+      apply N.eqb_eq in E1. subst y. f_equal. apply IHp. exact E2.
+    + split; [discriminate|]. intros Hl. exfalso.
+      change (last_opt (p :: n :: r')) with (last_opt (n :: r')) in Hl.
+      apply Nat.eqb_eq in H. cbn [Nat.add] in H.
+      assert (Hc : count_str NAME (n :: r') = 0) by lia.
+      clear - Hl Hc. revert n Hl Hc. induction r' as [|m r'' IHr]; intros n Hl Hc.
+      * cbn [last_opt] in Hl. injection Hl as ->. discriminate Hc.
+      * change (last_opt (n :: m :: r'')) with (last_opt (m :: r'')) in Hl.
+        apply (IHr m Hl). cbn [count_str] in Hc |- *. lia.
+  - cbn [Nat.add] in H. destruct r as [|n r'].
+    + discriminate H.
+    + change (last_opt (p :: n :: r')) with (last_opt (n :: r')). apply IH. exact H.
+Qed.
+
+(* ---- N5: ct_add_test / ct_add_section ---- *)
+
+Theorem process_test_spec : forall is_section c doc docd st,
+  2 <= length (singles c) -> one_name (singles c) = true ->
+  process_test is_section c doc docd st =
+  match ct_view (singles c) with
+  | Some (n, xf) =>
+      with_awaiting (AwTop (length (documented st)))
+        (append (ETest is_section n doc xf [] false) docd st)
+  | None => st
+  end.
+Proof.
+  intros is_section c doc docd st Hlen Hone. unfold process_test, ct_view.
+  destruct (Nat.ltb_spec (length (singles c)) 2) as [Hlt|_]; [lia|].
+  rewrite (scan_name_spec _ [] Hone), has_expectfail_spec.
+  destruct (name_after (singles c)); reflexivity.
+Qed.
+
+Example process_test_nonvacuous :
+  let ps := [s"EXPECTFAIL"; s"NAME"; s"t1"] in
+  2 <= length ps /\ one_name ps = true /\ ct_view ps = Some (s"t1", true)
+  /\ ct_view [s"x"; s"NAME"] = None.
+Proof. vm_compute. repeat split; lia. Qed.
+
+(* ---- N6: add_test ---- *)
+
+Lemma scan_name_idx_none : forall ps i cur,
+  count_str NAME ps = 0 -> scan_name_idx ps i cur = Some cur.
+Proof.
+  induction ps as [|p r IH]; intros i cur H; [reflexivity|].
+  cbn [count_str] in H. cbn [scan_name_idx]. change kw_name with NAME.
+  rewrite str_eqb_sym. destruct (str_eqb NAME p); [discriminate H|].
+  apply IH. exact H.
+Qed.
+
+Lemma scan_name_idx_spec : forall ps i cur, one_name ps = true ->
+  scan_name_idx ps i cur =
+  match name_after ps with
+  | Some n => Some (Some (i + name_pos ps), n)
+  | None => None
+  end.
+Proof.
+  unfold one_name. induction ps as [|p r IH]; intros i cur H; [discriminate H|].
+  cbn [count_str] in H. cbn [scan_name_idx name_after name_pos]. change kw_name with NAME.
+  rewrite (str_eqb_sym NAME p) in H. destruct (str_eqb p NAME).
+  - destruct r as [|n r']; [reflexivity|].
+    rewrite Nat.add_0_r. apply scan_name_idx_none.
+    apply Nat.eqb_eq in H. cbn [Nat.add] in H. lia.
+  - rewrite (IH (S i) cur H). destruct (name_after r); [|reflexivity].
+    do 2 f_equal. f_equal. lia.
+Qed.
+
+(* removing positions name_pos and name_pos + 1 is other_args *)
+Lemma drop_name_pair_spec : forall ps n, name_after ps = Some n ->
+  drop_name_pair (Some (name_pos ps)) ps = other_args ps.
+Proof.
+  unfold drop_name_pair. induction ps as [|p r IH]; intros n H; [discriminate H|].
+  cbn [name_after name_pos other_args] in H |- *. destruct (str_eqb p NAME).
+  - destruct r as [|m r']; [discriminate H|]. reflexivity.
+  - cbn [firstn Nat.add skipn app]. f_equal. apply (IH n H).
+Qed.
+
+Theorem process_add_test_spec : forall c doc docd st,
+  2 <= length (singles c) -> one_name (singles c) = true ->
+  process_add_test c doc docd st =
+  match add_test_view (singles c) with
+  | Some (n, others) => append (ECTest n doc others) docd st
+  | None => st
+  end.
+Proof.
+  intros c doc docd st Hlen Hone. unfold process_add_test, add_test_view.
+  destruct (Nat.ltb_spec (length (singles c)) 2) as [Hlt|_]; [lia|].
+  rewrite (scan_name_idx_spec _ 0 (None, []) Hone).
+  destruct (name_after (singles c)) as [n|] eqn:E; [|reflexivity].
+  cbn [Nat.add]. rewrite (drop_name_pair_spec _ n E). reflexivity.
+Qed.
+
+Definition mk_cmd (name : str) (ps : list str) : cmd :=
+  {| c_name := name; c_args := map (ASingle TUnquoted) ps |}.
+
+(* the test name occurring again among the other arguments stays *)
+Example add_test_repeated_name :
+  let ps := [s"NAME"; s"foo"; s"COMMAND"; s"foo"; s"--x"; s"foo"] in
+  singles (mk_cmd (s"add_test") ps) = ps
+  /\ 2 <= length ps /\ one_name ps = true
+  /\ add_test_view ps = Some (s"foo", [s"COMMAND"; s"foo"; s"--x"; s"foo"])
+  /\ documented (process_add_test (mk_cmd (s"add_test") ps) (s"d") true agg_init)
+     = [ECTest (s"foo") (s"d") [s"COMMAND"; s"foo"; s"--x"; s"foo"]].
+Proof. vm_compute. repeat split; lia. Qed.
+
+(* NAME in the middle *)
+Example add_test_name_in_middle :
+  let ps := [s"COMMAND"; s"run"; s"NAME"; s"t"; s"run"] in
+  one_name ps = true
+  /\ documented (process_add_test (mk_cmd (s"add_test") ps) [] false agg_init)
+     = [ECTest (s"t") [] [s"COMMAND"; s"run"; s"run"]].
+Proof. vm_compute. split; reflexivity. Qed.
+
+(* ---- N7: rendering of test entries ---- *)
+
+Theorem render_test_entry : forall sec n d xf ps mac,
+  render_entry (ETest sec n d xf ps mac) =
+  Dir (s"function") [n ++ s"(" ++ (if xf then EXPECTFAIL else []) ++ s")"] []
+      [Dir (s"warning") [if sec then section_warning else test_warning] [] []; Para d].
+Proof. reflexivity. Qed.
+
+Theorem render_ctest_entry : forall n d ps,
+  render_entry (ECTest n d ps) =
+  Dir (s"function") [signature n ps] []
+      [Dir (s"warning") [ctest_warning] [] []; Para d].
+Proof. reflexivity. Qed.
+
+Theorem warnings_distinct :
+  str_eqb test_warning section_warning = false
+  /\ str_eqb test_warning ctest_warning = false
+  /\ str_eqb section_warning ctest_warning = false
+  /\ str_eqb test_warning generic_warning = false
+  /\ str_eqb section_warning generic_warning = false
+  /\ str_eqb ctest_warning generic_warning = false.
+Proof. vm_compute. repeat split. Qed.
+
+(* ==== MAIN THEOREMS ====
+   unquote_spec unquote_quoted process_set_spec set_view_shapes render_variable_fields
+   process_option_spec render_option_default
+   scan_name_spec has_expectfail_spec name_after_none_iff
+   process_test_spec process_add_test_spec add_test_repeated_name
+   render_test_entry render_ctest_entry warnings_distinct *)
+Print Assumptions unquote_spec.
+Print Assumptions unquote_quoted.
+Print Assumptions process_set_spec.
+Print Assumptions set_view_shapes.
+Print Assumptions render_variable_fields.
+Print Assumptions process_option_spec.
+Print Assumptions render_option_default.
+Print Assumptions scan_name_spec.
+Print Assumptions has_expectfail_spec.
+Print Assumptions name_after_none_iff.
+Print Assumptions process_test_spec.
+Print Assumptions process_add_test_spec.
+Print Assumptions add_test_repeated_name.
+Print Assumptions render_test_entry.
+Print Assumptions render_ctest_entry.
+Print Assumptions warnings_distinct.
